@@ -379,6 +379,34 @@ func (a *Analysis) LeftRecursive() map[string]bool {
 	return res
 }
 
+// Reaches reports whether rule a can invoke rule b at its own start offset (transitively).
+func (a *Analysis) Reaches(from, to string) bool {
+	seen := map[string]bool{}
+	stack := []string{from}
+	for len(stack) > 0 {
+		n := stack[len(stack)-1]
+		stack = stack[:len(stack)-1]
+		for k := range a.First[n] {
+			if k == to {
+				return true
+			}
+			if !seen[k] {
+				seen[k] = true
+				stack = append(stack, k)
+			}
+		}
+	}
+	return false
+}
+
+// SameCycle reports whether two rules lie on a common left-recursive cycle.
+func (a *Analysis) SameCycle(x, y string) bool {
+	if x == y {
+		return a.Reaches(x, x)
+	}
+	return a.Reaches(x, y) && a.Reaches(y, x)
+}
+
 // NullableRepetition reports a * or + whose body may succeed without consuming (would loop).
 func (a *Analysis) NullableRepetition() *Expr {
 	var bad *Expr
